@@ -4528,8 +4528,10 @@ XPath::predicates(
                     m_expression.getNumberLiteral(m_expression.getOpCodeMapValue(predOpPos + 2));
 
                 // If the index is out of range, or not an integer, just clear subQueryResults...
-                if (theIndex <= 0.0 ||
-                    NodeRefListBase::size_type(theIndex) > theLength ||
+                // (compare as doubles first, since the index may be too large to be
+                // converted, or may be NaN)
+                if (!(theIndex > 0.0) ||
+                    theIndex > double(theLength) ||
                     double(NodeRefListBase::size_type(theIndex)) != theIndex)
                 {
                     subQueryResults.clear();
